@@ -20,7 +20,7 @@ Row(i) == Trace[i].row
 IsTable(i) == Row(i).shape = "minimal"
 
 AllowedWithEffect(t) ==
-  {i \in Idx : /\ Row(i).tool = t /\ IsTable(i)
+  {i \in Idx : /\ Row(i).tool = t /\ Row(i).spell = "exact" /\ IsTable(i)
                /\ Class(t, Row(i).role, Row(i).mut, Row(i).rc, Row(i).principal, Row(i).actor) = "allowed"
                /\ Trace[i].obs = "ok" /\ Trace[i].effect = EffectKind(t)
                /\ (t \in MutatingTools => (Len(Trace[i].audits) = 1 /\ Trace[i].audits[1].result = "success"))}
@@ -29,15 +29,15 @@ Reasons == {"unknown_tool", "role", "mutations_flag", "runtime_flag", "principal
 
 RefusedFor(reason) ==
   {i \in Idx : /\ IsTable(i) /\ Trace[i].obs = "refused"
-               /\ reason \in DenyReasons(Row(i).tool, Row(i).role, Row(i).mut, Row(i).rc, Row(i).principal, Row(i).actor)}
+               /\ reason \in DenyReasons(WireTool(Row(i)), Row(i).role, Row(i).mut, Row(i).rc, Row(i).principal, Row(i).actor)}
 
 \* refused for this reason alone (the reason is the only thing standing between the caller and the tool)
 RefusedOnlyFor(reason) ==
-  {i \in RefusedFor(reason) : DenyReasons(Row(i).tool, Row(i).role, Row(i).mut, Row(i).rc, Row(i).principal, Row(i).actor) = {reason}}
+  {i \in RefusedFor(reason) : DenyReasons(WireTool(Row(i)), Row(i).role, Row(i).mut, Row(i).rc, Row(i).principal, Row(i).actor) = {reason}}
 
-Key(r) == <<r.tool, r.role, r.mut, r.rc, r.principal, r.actor, r.shape>>
+Key(r) == <<r.tool, r.spell, r.role, r.mut, r.rc, r.principal, r.actor, r.shape>>
 
-TableKeys == {Key(r) : r \in TableRows}
+TableKeys == {Key(r) : r \in TableRows \cup SpellRows}
 ShapeKeys == {Key(r) : r \in ShapeRows}
 SeenKeys  == {Key(Row(i)) : i \in {j \in Idx : Row(j).shape # "random"}}
 
@@ -63,6 +63,8 @@ Covered ==
   /\ \A t \in QueueReadTools : \E i \in Idx :
         /\ Row(i).shape = "proxy_minimal" /\ Row(i).tool = t /\ Trace[i].obs = "ok" /\ Trace[i].admin_gets >= 1
   /\ \A s \in Shapes : \E i \in Idx : Row(i).shape = s
+  /\ \A t \in AllTools, sp \in Spellings \ {"exact"} :     \* every near miss of every tool name was sent and refused
+        \E i \in Idx : Row(i).tool = t /\ Row(i).spell = sp /\ Trace[i].obs = "refused" /\ Trace[i].wire_name # t
 
 \* one state; Covered is evaluated once as an invariant (row is the variable inherited from McpGateMC)
 CovInit == row = "none"
